@@ -255,7 +255,11 @@ THREAD_OPS = {
     "advance_seconds": lambda c: c.advance_seconds(100),
     "reset": lambda c: c.reset(mk_instant(10**15)),
     "set_auto": lambda c: setattr(c, "auto_advance", Duration.from_nanoseconds(3 * 10**9)),
+    # reset to the very Instant OBJECT the clock was constructed with (an identity-based "nothing changed" test in the
+    # clock is fooled only by this): the ABA shape, used as the second operation of a thread
+    "reset_initial": lambda c: c.reset(_T0_OBJECT),
 }
+_T0_OBJECT = mk_instant(0)
 
 
 def seq_model_outcomes(threads_ops):
@@ -283,6 +287,8 @@ def seq_model_outcomes(threads_ops):
                     st2[0] = 10**15
                 elif op == "set_auto":
                     st2[1] = 3 * 10**9
+                elif op == "reset_initial":
+                    st2[0] = 0
                 pos2 = list(pos)
                 pos2[i] += 1
                 rec(pos2, st2, res2)
@@ -297,7 +303,7 @@ def _thread_harness(cfg):
     allowed = seq_model_outcomes(threads_ops)
 
     def make():
-        clock = FakeClock(mk_instant(0), Duration.from_nanoseconds(10**9))
+        clock = FakeClock(_T0_OBJECT, Duration.from_nanoseconds(10**9))
 
         def body(ops):
             def f():
@@ -325,7 +331,7 @@ def _thread_harness(cfg):
         now = ins_ns(clock.get_current_instant())
         out = (reads, now, auto)
         flat = [x for r in reads for x in r]
-        if len(set(flat)) != len(flat) and "reset" not in [o for t in threads_ops for o in t]:
+        if len(set(flat)) != len(flat) and not any(o.startswith("reset") for t in threads_ops for o in t):
             return out, "two reads returned the same instant with a non-zero auto-advance: %r" % (reads,)
         if out not in allowed:
             return out, "outcome %r is not the result of any sequential order of the operations" % (out,)
@@ -581,6 +587,11 @@ def run(ctx):
            (("read",), ("set_auto",)), (("advance",), ("advance",)), (("read", "read"), ("read", "read"))]
     if "advance_seconds" in ok_ops:
         two += [(("read",), ("advance_seconds",)), (("advance_seconds",), ("advance",))]
+    # ABA shapes: thread B changes something and then puts the clock back onto its initial Instant object
+    aba_first = ("set_auto", "advance", "reset") if tier == "quick" else tuple(o for o in ok_ops)
+    for first in aba_first:
+        if first in ok_ops and "reset" in ok_ops:
+            two.append((("read",), (first, "reset_initial")))
     for t in two:
         harnesses.append((t, 2, True, 20000 if tier == "quick" else 200000))
     three = [(("read",), ("read",), ("read",)), (("read",), ("read",), ("advance",)), (("read",), ("reset",), ("read",))]
